@@ -34,6 +34,18 @@ import ttconv.model as model
 LOGGER = logging.getLogger(__name__)
 
 
+MAX_ELEMENT_NESTING = 100
+
+def _is_nested_deeper_than(xml_element, limit: int) -> bool:
+  '''Returns whether any descendant of `xml_element` is more than `limit` levels below it (without recursion)'''
+  stack = [(xml_element, 0)]
+  while stack:
+    element, depth = stack.pop()
+    if depth > limit:
+      return True
+    stack.extend((child, depth + 1) for child in element)
+  return False
+
 def to_model(xml_tree, progress_callback=lambda _: None) -> typing.Optional[model.ContentDocument]:
   '''Convers an IMSC document to the data model'''
 
@@ -41,6 +53,11 @@ def to_model(xml_tree, progress_callback=lambda _: None) -> typing.Optional[mode
 
   if not imsc_elements.TTElement.is_instance(xml_element):
     LOGGER.fatal("A tt element is not the root element")
+    return None
+
+  if _is_nested_deeper_than(xml_element, MAX_ELEMENT_NESTING):
+    # the document is processed recursively, here and downstream
+    LOGGER.fatal("Elements are nested more than %s levels deep", MAX_ELEMENT_NESTING)
     return None
 
   tt_element = imsc_elements.TTElement.from_xml(None, xml_element, progress_callback)
